@@ -63,6 +63,8 @@ where
             let results: Vec<(T, f64)> = (0..the_graph.number_of_nodes())
                 .into_par_iter()
                 .map(|source| {
+                    #[cfg(graphrs_verif)]
+                    let _span = crate::verif_hooks::span("closeness_par", source);
                     let shortest_paths = match weighted {
                         true => single_source_shortest_path_length_weighted(the_graph, source),
                         false => single_source_shortest_path_length_unweighted(the_graph, source),
@@ -73,11 +75,15 @@ where
                 })
                 .collect();
             for (node, cc) in results {
+                #[cfg(graphrs_verif)]
+                crate::verif_hooks::emit("closeness_combine", 2, 0);
                 centralities.insert(node, cc);
             }
         }
         false => {
             for source in 0..the_graph.number_of_nodes() {
+                #[cfg(graphrs_verif)]
+                let _span = crate::verif_hooks::span("closeness_ser", source);
                 let shortest_paths = match weighted {
                     true => single_source_shortest_path_length_weighted(the_graph, source),
                     false => single_source_shortest_path_length_unweighted(the_graph, source),
